@@ -2,7 +2,7 @@
 C02 — Every request body gets a well-formed reply and the dispatcher never raises.
 
 Model   : lean/JRV/Model/Server.lean (marshaledDispatch over every parse outcome), lean/JRV/Model/Callable.lean
-Theorems: lean/JRV/Properties/C02.lean
+Theorems: lean/JRV/Properties/C02.lean (+ C02Gen.lean: companions of the extracted facts)
 Tie     : extracted Fault sites / guards (tools/extractors/server.py) + differential correspondence of the reply
           *structure* (raise / empty / single / array, member names, error typing) between the model and the real
           `_marshaled_dispatch`, on the parse outcome the real `jsonrpclib.loads` produced.
@@ -11,15 +11,21 @@ Monitor : a JSON-RPC reply validator written from the property text + "did it ra
 import servercases as sc
 
 REQUIRED_THEOREMS = [
-    "C02_no_raise", "C02_wellformed", "C02_form_follows_request", "C02_full_pool_raises",
-    "C02_gen_faultSites", "C02_gen_loadsGuarded", "C02_gen_jdumpsGuarded",
+    "C02_no_raise", "C02_wellformed", "C02_sent_serialisable", "C02_form_follows_request", "C02_full_pool_raises",
+    # companions of the extracted facts: lean/JRV/Properties/C02Gen.lean (built and audited separately)
+    "C02_gen_faultSites", "C02_gen_loadsGuarded", "C02_gen_jdumpsGuarded", "C02_gen_safeJdumpsGuarded",
+    "C02_gen_handlersOnlyReport",
 ]
 
 MONITORS = [("reply-validator", sc.monitor_c02), ("do_POST", sc.monitor_post)]
 
 RULE = ("request bodies: member alphabet (jsonrpc/id/method/params absent or of every JSON type) against seven registries, "
         "batches (sampled from all orders up to length 3, random up to 6), truncations/corruptions of valid texts, noise, "
-        "descriptor-bearing bodies with class translation on, notification pools, random registries; both server versions; "
+        "descriptor-bearing bodies with class translation on, notification pools, random registries (every ordinary builtin "
+        "exception class with no/many/non-JSON arguments and texts up to 5000 characters, raised at frame depth 0/1/2/3, "
+        "builtins/partials/callable objects/decorated functions, attributes bound to None), unregistered variants of "
+        "registered names, batches of 64/257/1000 entries, escaped lone surrogates in ids/params/method names (also over "
+        "do_POST), results the JSON library rejects; numbers overflowing a double are run but not judged; both server versions; "
         "thorough: 9^4 member product x 2 versions, every truncation and 3 corruptions per position, all batches <= 3 over 7 "
         "entry kinds; distinct_nontrivial = distinct (generator, version, translation, pool, reply outcome class, parse outcome)")
 
